@@ -11,25 +11,11 @@
 (*     (as implemented and pinned by the repository's windowed_test.go: in-flight of the        *)
 (*     closing sample > window size); the delegate then receives exactly once                   *)
 (*     (start, mean RTT over the successes (0 if none), max in-flight, drop flag of the WINDOW) *)
-EXTENDS Integers, Sequences, TLC, Json, IOUtils
+EXTENDS Windowed, TLC, Json, IOUtils
 
 Log == ndJsonDeserialize(IOEnv.VERIF_TRACE)
 VARIABLES l, ok, cfg, w
 vars == <<l, ok, cfg, w>>
-
-Max(a, b) == IF a > b THEN a ELSE b
-Empty == [sum |-> 0, count |-> 0, maxin |-> 0, drop |-> FALSE, nu |-> <<0, 0>>]
-After(a, b) == a[1] > b[1] \/ (a[1] = b[1] /\ a[2] > b[2])
-
-Fold(c, s, x) ==
-  IF x.rtt < c.threshold THEN [st |-> s, out |-> <<>>]
-  ELSE LET f == IF x.drop THEN [s EXCEPT !.maxin = Max(@, x.inflight), !.drop = TRUE]
-                 ELSE [s EXCEPT !.sum = @ + x.rtt, !.count = @ + 1, !.maxin = Max(@, x.inflight)]
-           end == <<x.t, x.rtt>>
-       IN IF After(end, s.nu) /\ x.inflight > c.wsize
-          THEN [st |-> [Empty EXCEPT !.nu = <<x.t + 1, x.rtt>>],
-                out |-> <<[rtt |-> IF f.count = 0 THEN 0 ELSE f.sum \div f.count, inflight |-> f.maxin, drop |-> f.drop]>>]
-          ELSE [st |-> f, out |-> <<>>]
 
 Init == l = 1 /\ ok = FALSE /\ cfg = [wsize |-> 0] /\ w = Empty
 Step ==
